@@ -401,6 +401,26 @@ var accessors = ev.Register(&ev.P[objCase]{
 	Check: func(c objCase) error {
 		var first error
 		n := 0
+		// what a January day of the date's lunar year converts to, before any accessor has run
+		ly0 := gen.Solar(c.T).GetLunar().GetYear()
+		probe := func() string {
+			if ly0 < 1 || ly0 > 9998 {
+				return ""
+			}
+			var out string
+			func() {
+				defer func() {
+					if r := recover(); r != nil {
+						out = fmt.Sprintf("PANIC:%v", r)
+					}
+				}()
+				x := calendar.NewSolarFromYmd(ly0, 1, 15).GetLunar()
+				out = fmt.Sprintf("%d/%d/%d %s", x.GetYear(), x.GetMonth(), x.GetDay(), x.String())
+			}()
+			return out
+		}
+		before := probe()
+		defer func() { _ = before }()
 		for _, o := range objects(c) {
 			dig.Visit(o, 1, func(call dig.Call) {
 				n++
@@ -415,6 +435,12 @@ var accessors = ev.Register(&ev.P[objCase]{
 			}
 		}
 		calls += int64(n)
+		// the accessors are read-only: after all of them ran on the (cached, shared) year table, converting a
+		// day of that year still works and gives what it gave before
+		dig.Visit(calendar.NewLunarYear(ly0), 0, func(dig.Call) {})
+		if after := probe(); after != before {
+			return fmt.Errorf("%v: converting %04d-01-15 gave %q before the accessors of LunarYear(%d) were called and %q right after", c.T, ly0, before, after, ly0)
+		}
 		return nil
 	},
 	Class: func(c objCase) ([]string, bool) {
@@ -624,6 +650,18 @@ func TestC08(t *testing.T) {
 		}
 		for d := 1; d <= 30; d++ {
 			add(utilCase{"FotoXiu", m, d})
+		}
+	}
+	// births whose fortune start is computed across the 1582 gap (Oct 5..14 of the ten years before)
+	kk := 0
+	for y := 1572; y <= 1581; y++ {
+		for _, d := range []int{5, 9, 14} {
+			for g := 0; g <= 1; g++ {
+				if ev.Mine(kk) && (ev.Thorough() || (y+d+g)%3 == 0) {
+					accessors.Eval(objCase{T: ref.DT{Y: y, M: 10, D: d, H: 12}, Gender: g, Sect: 1 + (y+d)%2, Start: d % 7})
+				}
+				kk++
+			}
 		}
 	}
 	utilities.Exhaustive("GetDayYi/Ji 60x60, GetTimeYi/Ji 60x60, GetDayJiShen/XiongSha 24x60, GetXun* 60, FotoUtil.GetXiu 24x30")
